@@ -146,6 +146,7 @@ def succ(pb, s, agent, action, args, foreign=None) -> Succ:
         if v is not True:
             return Succ(INAPP, reason="precondition-false", info={"index": i})
     assigns, deltas, ftypes = {}, {}, {}
+    srcs = {}  # key -> set of value expressions (with binding) behind the assignments
     fired = 0
     for eff in action.effects:
         vs = list(eff.forall)
@@ -175,6 +176,7 @@ def succ(pb, s, agent, action, args, foreign=None) -> Succ:
             fired += 1
             if eff.is_assignment():
                 assigns.setdefault(key, []).append(val)
+                srcs.setdefault(key, set()).add(eff.value if eff.value.is_constant() else (eff.value, combo))
             elif eff.is_increase():
                 deltas[key] = deltas.get(key, 0) + val
             elif eff.is_decrease():
@@ -194,6 +196,11 @@ def succ(pb, s, agent, action, args, foreign=None) -> Succ:
                     distinct.append(v)
             if len(distinct) > 1:
                 return Succ(INAPP, reason="conflicting-assignments", info={"fluent": key, "values": distinct})
+            if len(vals) > 1 and len(srcs[key]) > 1:
+                # equal values through syntactically different value expressions: the model API rejects such a pair
+                # statically when both are unconditional, so a compiled variant may legitimately be refused (same
+                # don't-care class as in vk/ref/seqsem.py; the statements only fix *different* values)
+                return Succ(DONTCARE, reason="same value assigned twice through different value expressions")
             updates[key] = distinct[0]
     for key, d in deltas.items():
         updates[key] = norm(s[key] + d)
